@@ -72,3 +72,10 @@ Theorem C05_the_same_parentheses_matter_elsewhere :
   Sm (Paren Multi) <> Sm Multi /\ first_value (Sm (Paren Multi)) = first_value (Sm Multi).
 Proof. exact ParensIdem.parentheses_truncate. Qed.
 Print Assumptions C05_the_same_parentheses_matter_elsewhere.
+(* ... and the same on L0 trees: the condition rule of the whole-formatter model (Fmt0.ncond: every layer goes, then the ordinary rule)
+   keeps the first value of the condition *)
+From SV Require Fmt0 Fmt0Idem.
+Theorem C05_L0_condition_rule_keeps_the_first_value : forall e,
+  first_value (Sm (Fmt0.shape (Fmt0.ncond e))) = first_value (Sm (Fmt0.shape e)).
+Proof. exact Fmt0Idem.ncond_keeps_the_first_value. Qed.
+Print Assumptions C05_L0_condition_rule_keeps_the_first_value.
